@@ -55,6 +55,66 @@ type w2 struct {
 	cb      []string
 	tunnels map[int]*revTunnel
 	ops     *opsWriter
+	waiters []*regWaiter
+	// when set, the OnReverseTunnelClose callback parks a waiter (named by the value) while the
+	// tunnel is being torn down: between unregister and the handler's deferred removals
+	waitInCloseCB int
+}
+
+// regWaiter is a goroutine inside WaitForReady with a deadline that never arrives.
+type regWaiter struct {
+	id  int
+	key string
+	mu  sync.Mutex
+	res string // "" while parked, then ok / err
+	cancel context.CancelFunc
+}
+
+func (w *w2) chanFor(key string) grpctunnel.ReverseClientConnInterface {
+	switch key {
+	case "*":
+		return w.handler.AsChannel()
+	case "-":
+		return w.handler.KeyAsChannel(nil)
+	}
+	return w.handler.KeyAsChannel(key)
+}
+
+func (w *w2) startWaiter(id int, key string) {
+	wt := &regWaiter{id: id, key: key}
+	w.mu.Lock()
+	w.waiters = append(w.waiters, wt)
+	w.mu.Unlock()
+	ch := w.chanFor(key)
+	ctx, cancel := context.WithTimeout(context.Background(), 1000*time.Hour)
+	wt.cancel = cancel
+	go func() {
+		defer cancel()
+		err := ch.WaitForReady(ctx)
+		wt.mu.Lock()
+		if err == nil {
+			wt.res = "ok"
+		} else {
+			wt.res = "err"
+		}
+		wt.mu.Unlock()
+	}()
+}
+
+func (w *w2) showWaiters() string {
+	w.mu.Lock()
+	defer w.mu.Unlock()
+	var a []string
+	for _, wt := range w.waiters {
+		wt.mu.Lock()
+		r := wt.res
+		wt.mu.Unlock()
+		if r == "" {
+			r = "parked"
+		}
+		a = append(a, fmt.Sprintf("%d:%s", wt.id, r))
+	}
+	return strings.Join(a, " ")
 }
 
 // scrub overwrites, in place, the values a metadata accessor returned for key k
@@ -108,7 +168,13 @@ func startW2(t *testing.T, ops *opsWriter, noReverseFC bool) *w2 {
 		OnReverseTunnelClose: func(ch grpctunnel.TunnelChannel) {
 			w.mu.Lock()
 			w.cb = append(w.cb, fmt.Sprintf("close:%d", tidOf(ch)))
+			wid := w.waitInCloseCB
+			w.waitInCloseCB = 0
 			w.mu.Unlock()
+			if wid != 0 {
+				w.startWaiter(wid, "*")
+				time.Sleep(time.Millisecond) // let it park before the tear-down continues
+			}
 		},
 		AffinityKey: func(ch grpctunnel.TunnelChannel) any {
 			md, _ := metadata.FromIncomingContext(ch.Context())
@@ -134,6 +200,11 @@ func startW2(t *testing.T, ops *opsWriter, noReverseFC bool) *w2 {
 }
 
 func (w *w2) stop() {
+	w.mu.Lock()
+	for _, wt := range w.waiters {
+		wt.cancel()
+	}
+	w.mu.Unlock()
 	for _, tn := range w.tunnels {
 		tn.cancel()
 	}
@@ -183,7 +254,7 @@ func (w *w2) obsReg(extra string) string {
 		_ = id
 	}
 	sort.Strings(ret)
-	return fmt.Sprintf("%sall=[%s] ready=%s cb=[%s]", extra, w.allIDs(), b01(w.handler.AsChannel().Ready()), w.takeCB())
+	return fmt.Sprintf("%sall=[%s] ready=%s cb=[%s] waiters=[%s]", extra, w.allIDs(), b01(w.handler.AsChannel().Ready()), w.takeCB(), w.showWaiters())
 }
 
 func (w *w2) open(id int, key string, shared *grpctunnel.ReverseTunnelServer) *revTunnel {
@@ -237,6 +308,7 @@ func TestW2Registry(t *testing.T) {
 			defer w.stop()
 			ops.add("r.init", w.obsReg(""))
 			next := 1
+			nextW := 0
 			keys := []string{"-", "a", "b", "a"}
 			for step := 0; step < 25+rng.Intn(30); step++ {
 				var live []*revTunnel
@@ -311,6 +383,43 @@ func TestW2Registry(t *testing.T) {
 					wouldBlock := ch.WaitForReady(ctx) != nil
 					cancel()
 					ops.add("r.ready key="+key, w.obsReg(fmt.Sprintf("ready=%s waitblocks=%s ", b01(ch.Ready()), b01(wouldBlock))))
+				case k < 91:
+					// a caller parks in WaitForReady (released only by a tunnel becoming available)
+					key := []string{"*", "-", "a", "b"}[rng.Intn(4)]
+					nextW++
+					w.startWaiter(nextW, key)
+					ops.add(fmt.Sprintf("r.wait w=%d key=%s", nextW, key), w.obsReg(""))
+				case k < 95:
+					// a reverse tunnel that is dead on arrival: the peer asks for the settings exchange and hangs up
+					key := keys[rng.Intn(len(keys))]
+					id := next
+					next++
+					md := metadata.Pairs("tid", strconv.Itoa(id), grpctunnel.VerifNegotiateKey, grpctunnel.VerifNegotiateVal)
+					if key != "-" {
+						md.Set("key", key)
+					}
+					ctx, cancel := context.WithCancel(metadata.NewOutgoingContext(context.Background(), md))
+					if str, err := w.stub.OpenReverseTunnel(ctx); err == nil {
+						_ = str.CloseSend()
+						for {
+							if _, err := str.Recv(); err != nil {
+								break
+							}
+						}
+					}
+					cancel()
+					ops.add(fmt.Sprintf("r.doa t=%d key=%s", id, key), w.obsReg(""))
+				case k < 97 && len(live) == 1:
+					// the last tunnel goes away and a caller starts waiting while it is being torn down
+					tn := live[0]
+					nextW++
+					w.mu.Lock()
+					w.waitInCloseCB = nextW
+					w.mu.Unlock()
+					tn.cancel()
+					synctest.Wait()
+					time.Sleep(5 * time.Millisecond) // lets the callback's pause elapse (virtual time)
+					ops.add(fmt.Sprintf("r.closewait t=%d w=%d", tn.id, nextW), w.obsReg(""))
 				default:
 					ops.add("r.all", w.obsReg(""))
 				}
